@@ -128,6 +128,160 @@ def facts_at(fn, g, flow, sym, bi, cache):
     return fx
 
 
+def dominating_cmps(fn, g, flow, sym, bi):
+    """comparisons whose truth is known at block bi: two-way switches on a comparison one of whose arms dominates bi (assertions and decisions alike) -> [(op, x, y)] with the
+    truth folded into op"""
+    out = []
+    for bj in sorted(g.reach):
+        tt = fn.blocks[bj]["t"]
+        if bj == bi or not tt or tt["k"] != "Switch" or not g.dominates(bj, bi):
+            continue
+        arms = [(v, x) for v, x in tt["ts"]] + [("else", tt["else"])]
+        mine = [(v, a) for v, a in arms if g.dominates(a, bi) and len(g.pred[a]) == 1]
+        if len(mine) != 1 or len(arms) != 2:
+            continue
+        c = None
+        for r in flow.op_roots(tt["o"]):
+            if r[0] == "bin":
+                st = fn.blocks[r[1]]["s"][r[2]][2]
+                if st.get("op") in ("Eq", "Ne", "Lt", "Le", "Gt", "Ge"):
+                    c = (st["op"], sym.operand(st["o"][0]), sym.operand(st["o"][1]))
+            elif r[0] == "call":
+                t2 = fn.blocks[r[1]]["t"]
+                nm = (fn.callee_def(t2) or {}).get("n")
+                if nm in ("eq", "ne", "lt", "le", "gt", "ge") and len(t2["a"]) == 2:
+                    c = (nm.capitalize(), sym.operand(t2["a"][0]), sym.operand(t2["a"][1]))
+        if c is None:
+            continue
+        op, x, y = c
+        if mine[0][0] == 0:
+            op = {"Eq": "Ne", "Ne": "Eq", "Lt": "Ge", "Ge": "Lt", "Le": "Gt", "Gt": "Le"}[op]
+        out.append((op, x, y))
+    return out
+
+
+def row1(p, res, prefixes, rule="ROW-1"):
+    """matrix objects (GGSW / GGLWE, their prepared and compressed forms) are addressed row by row: a row accessor `X.at(row, col)` / `X.at_mut(row, col)` indexed by the variable of
+    a range loop needs  upper bound of the loop <= X.dnum()  - by construction (the bound is X's own row count or a minimum with it) or by a comparison that dominates the access
+    (`assert!(res.dnum() <= a.dnum())`).  Decided as an implication over the extracted expressions: no valuation of the row counts satisfies the dominating comparisons and makes
+    the loop bound exceed the object's rows."""
+    from . import pwl
+    from .c11 import _range_bounds
+    n = 0
+    for f in sorted(p.lib_fns(), key=lambda x: x.uid):
+        if f.kind == "Closure" or not f.blocks or not f.uid.startswith(prefixes) or "::test_suite::" in f.uid:
+            continue
+        g = CFG(f)
+        if not g.loops():
+            continue
+        flow = Flow(f, transparent=("to_ref", "to_mut", "deref", "deref_mut", "borrow", "borrow_mut", "as_ref", "as_mut", "clone"))
+        plain = Flow(f)
+        sym = None
+        k = 0
+        for bi, t in f.calls():
+            nm = (f.callee_def(t) or {}).get("n")
+            if nm not in ("at", "at_mut") or len(t["a"]) != 3 or g.innermost_loop(bi) is None:
+                continue
+            objs = {r[1] for r in flow.op_roots(t["a"][0]) if r[0] == "param"}
+            if len(objs) != 1:
+                continue
+            if sym is None:
+                sym = Sym(f, plain)
+            idx = sym.operand(t["a"][1])
+            lv = [a for a in idx.atoms() if a[0] == "call" and a[1] == f.uid and (f.callee_def(f.blocks[a[2]]["t"]) or {}).get("n") == "next"]
+            if len(lv) != 1 or len(idx.t) != 1 or list(idx.t.values()) != [1]:
+                continue
+            rb = _range_bounds(f, plain, sym, f.blocks[lv[0][2]]["t"])
+            if rb is None:
+                continue
+            hi = rb[1]
+            if not any(a[0] == "f" and a[1] == "dnum" for a in _deep_atoms(hi)):
+                continue            # not a row loop (columns / ranks are COL-2's business)
+            obj = list(objs)[0]
+            k += 1
+            n += 1
+            D = Poly.atom(("f", "dnum", (Poly.atom(("p", obj, ())).key(),)))
+            facts = dominating_cmps(f, g, plain, sym, bi)
+            # only the comparisons that (transitively) speak about the quantities of the obligation
+            rel = _deep_atoms(hi) | _deep_atoms(D)
+            changed = True
+            keep = []
+            while changed:
+                changed = False
+                for fc in facts:
+                    if fc in keep:
+                        continue
+                    at = _deep_atoms(fc[1]) | _deep_atoms(fc[2])
+                    if at & rel:
+                        keep.append(fc)
+                        rel |= at
+                        changed = True
+            facts = keep
+            # atoms asserted equal share one value (rejection sampling never meets a conjunction of equalities)
+            par = {}
+
+            def find(x):
+                par.setdefault(x, x)
+                while par[x] != x:
+                    par[x] = par[par[x]]
+                    x = par[x]
+                return x
+            for op, a, b in facts:
+                if op == "Eq" and len(a.t) == 1 and len(b.t) == 1 and list(a.t.values()) == [1] and list(b.t.values()) == [1]:
+                    ka, kb = list(a.t)[0], list(b.t)[0]
+                    if len(ka) == 1 and len(kb) == 1:
+                        par[find(repr(ka[0]))] = find(repr(kb[0]))
+            bad = None
+            pts = 0
+            import random as _r
+            rnd = _r.Random(7)
+            for i in range(1500):
+                rr = _r.Random(rnd.random())
+                span = (2, 4, 6)[i % 3]
+                memo = {}
+
+                def fresh(kk, rr=rr, span=span, memo=memo):
+                    c = find(kk)
+                    if c not in memo:
+                        memo[c] = rr.randint(0, span)
+                    return memo[c]
+                ev = pwl.Eval(p, {"__fresh__": fresh})
+                ev.syms[f.uid] = sym
+                try:
+                    if not all({"Eq": x == y, "Ne": x != y, "Lt": x < y, "Le": x <= y, "Gt": x > y, "Ge": x >= y}[op] for op, a, b in facts for x, y in [(ev.poly(a), ev.poly(b))]):
+                        continue
+                    h, d = ev.poly(hi), ev.poly(D)
+                except (pwl.ErrPath, ZeroDivisionError):
+                    continue
+                pts += 1
+                if h > d and bad is None:
+                    bad = {"loop_bound": h, "rows": d}
+            pn = f.param_names()
+            if bad:
+                res.bad(rule, f.pretty, "%s(%s)#%d:row-bound" % (nm, pn.get(obj), k),
+                        "%s addresses row `row` of `%s` in a loop running to %r: nothing the function compares keeps that bound within %s.dnum() (e.g. bound %d, %d row(s)): the accessor "
+                        "panics for an operand with fewer rows although the function's own preconditions admit it" % (f.pretty, pn.get(obj), hi, pn.get(obj), bad["loop_bound"], bad["rows"]),
+                        site=f.where(t["l"]), detail=bad)
+            elif pts >= 100:
+                res.ok(rule, {"fn": f.pretty, "object": pn.get(obj), "bound": repr(hi)} if n % 7 == 1 else None)
+            else:
+                res.undec(rule, "%s: too few admissible points for %s" % (f.pretty, pn.get(obj)))
+    return n
+
+
+def _deep_atoms(pl, depth=0):
+    out = set()
+    for a in pl.atoms():
+        out.add(a)
+        if a[0] == "f" and depth < 5:
+            for kk in a[2]:
+                try:
+                    out |= _deep_atoms(Poly(dict(kk)), depth + 1)
+                except (TypeError, ValueError):
+                    pass
+    return out
+
+
 def rad1(p, res, prefixes, names=("vec_znx_normalize", "glwe_normalize")):
     """returns the number of decided instances"""
     n = 0
